@@ -205,8 +205,31 @@ theorem cte_eval_eq (db : DB) (c : Cte) :
     c.eval db = ((c.source.rows db).filter (allTrue c.where_)).map
       fun r => c.items.map fun i => (c.qual i.alias, i.e.eval r) := rfl
 
+theorem noAgg_eval (h : AExpr) (hn : h.noAgg = true) (out : Row) (g g' : List Row) :
+    h.eval out g = h.eval out g' := by
+  induction h with
+  | agg f e => simp [AExpr.noAgg] at hn
+  | lit v => rfl
+  | bin op a b iha ihb =>
+    simp only [AExpr.noAgg, Bool.and_eq_true] at hn
+    simp only [AExpr.eval, iha hn.1, ihb hn.2]
+  | nullif a b iha ihb =>
+    simp only [AExpr.noAgg, Bool.and_eq_true] at hn
+    simp only [AExpr.eval, iha hn.1, ihb hn.2]
+  | coalesce a b iha ihb =>
+    simp only [AExpr.noAgg, Bool.and_eq_true] at hn
+    simp only [AExpr.eval, iha hn.1, ihb hn.2]
+  | case c a b ihc iha ihb =>
+    simp only [AExpr.noAgg, Bool.and_eq_true] at hn
+    simp only [AExpr.eval, ihc hn.1.1, iha hn.1.2, ihb hn.2]
+  | paren a iha =>
+    simp only [AExpr.noAgg] at hn
+    simp only [AExpr.eval, iha hn]
+  | outRef n => rfl
+
 theorem fusable_parts {p : Plan} {c : Cte} (h : p.fusable c = true) :
-    p.ctes = [c] ∧ p.base = c.name ∧ p.joins = [] ∧ p.where_ = [] ∧ p.having = [] ∧ p.ungrouped = false ∧
+    p.ctes = [c] ∧ p.base = c.name ∧ p.joins = [] ∧ p.where_ = [] ∧ p.having.all AExpr.noAgg = true ∧
+    p.ungrouped = false ∧
     p.dims.all (fun it => (resolveKey c it).isSome) = true ∧
     p.mets.all (fun a => (resolveAgg c a).isSome) = true := by
   unfold Plan.fusable at h
@@ -214,25 +237,51 @@ theorem fusable_parts {p : Plan} {c : Cte} (h : p.fusable c = true) :
   obtain ⟨⟨⟨⟨⟨⟨⟨h1, h2⟩, h3⟩, h4⟩, h5⟩, h6⟩, h7⟩, h8⟩ := h
   exact ⟨h1, h2, h3, h4, h5, h6, h7, h8⟩
 
+theorem having_holds (hs : List AExpr) (h5 : hs.all AExpr.noAgg = true) (row : Row) (g : List Row) :
+    (hs.all fun hh => (hh.eval row g).isTrue) = havingHolds hs row := by
+  unfold havingHolds
+  induction hs with
+  | nil => rfl
+  | cons hh rest ih =>
+    simp only [List.all_cons, Bool.and_eq_true] at h5
+    simp only [List.all_cons, ih h5.2, noAgg_eval hh h5.1 row g []]
+
+theorem filter_map_fst {α β : Type} (l : List (α × β)) (pr : α → Bool) :
+    (l.filter fun x => pr x.1).map (·.1) = (l.map (·.1)).filter pr := by
+  induction l with
+  | nil => rfl
+  | cons x xs ih =>
+    simp only [List.filter_cons, List.map_cons]
+    split <;> simp [ih]
+
 /-- **Fusion.** A fusable plan returns, on every database, exactly the rows of the flat query
-obtained by substituting its CTE into its SELECT (same rows, same order, same column names). -/
+obtained by substituting its CTE into its SELECT, filtered by HAVING evaluated on the output rows
+(same rows, same order, same column names). -/
 theorem body_fuse (p : Plan) (c : Cte) (db : DB) (h : p.fusable c = true) :
-    p.body db = flatEval (p.fuse c) (c.source.rows db) := by
+    p.body db = (flatEval (p.fuse c) (c.source.rows db)).filter (havingHolds p.having) := by
   obtain ⟨h1, h2, h3, h4, h5, h6, h7, h8⟩ := fusable_parts h
   have hj : p.joined db = c.eval db := by
     unfold Plan.joined
     simp [h1, h2, h3]
-  unfold Plan.body flatEval Plan.fuse
-  simp only [hj, h4, h5, h6, List.all_nil, filter_const_true, Bool.false_eq_true, if_false]
+  unfold Plan.body
+  simp only [hj, h4, h6, List.all_nil, filter_const_true, Bool.false_eq_true, if_false]
+  have hhav : ∀ (row : Row) (g : List Row),
+      (p.having.all fun hh => (hh.eval row g).isTrue) = havingHolds p.having row :=
+    fun row g => having_holds p.having h5 row g
+  simp only [hhav]
+  rw [filter_map_fst _ (havingHolds p.having)]
+  congr 1
+  unfold flatEval Plan.fuse
   rw [cte_eval_eq]
   generalize (c.source.rows db).filter (allTrue c.where_) = L
   have hal := filterMap_alias c p.dims h7
   unfold flatGroups
+  simp only [List.map_map]
   rw [filterMap_isEmpty c p.dims h7]
   by_cases hd : p.dims.isEmpty = true
   · have hdn : p.dims = [] := List.isEmpty_iff.mp hd
     simp only [hdn, List.isEmpty_nil, if_true, List.map_cons, List.map_nil, List.filterMap_nil,
-      List.zip_nil_left, List.nil_append]
+      List.zip_nil_left, List.nil_append, Function.comp]
     congr 1
     exact mets_eval c p.mets [] L h8
   · have hd' : p.dims.isEmpty = false := by simpa using hd
